@@ -36,6 +36,9 @@ def run(ctx, report):
     report.section("references", references, ctx, report)
     report.section("regions", regions, ctx, report)
     report.section("structure", structure, ctx, report)
+    from . import markup_writer_fold
+    report.section("written documents", markup_writer_fold.run, ctx, report, {
+        "wellformed": ("R-DOC-GRAMMAR", "1"), "structure": ("R-DOC-CUES", "1"), "refs": ("R-DOC-REFS", "2")})
     report.not_decided += ["uniqueness of ids across user-chosen style names and generated region ids",
                            "XML 1.0 character range of the text", "namespace handling by the serializer"]
     report.assume("bs4 prettify(formatter=None) performs no entity substitution and quotes attribute values itself")
